@@ -34,23 +34,28 @@ def features(b):
 
 
 def select(behaviours, n):
-    """greedy: most published signatures first, but every feature must be represented several times"""
-    scored = sorted(behaviours, key=lambda b: (-len(features(b)), -len(b["expect"]["published"])))
+    """greedy: behaviours exercising many features first, every feature represented several times, then the ones with
+    the most published signatures"""
+    order = sorted(range(len(behaviours)),
+                   key=lambda i: (-len(features(behaviours[i])), -len(behaviours[i]["expect"]["published"]), i))
     chosen, seen = [], {}
-    for b in scored:
+    for i in order:
+        b = behaviours[i]
         fs = features(b)
         if len(b["expect"]["published"]) == 0 and "lagged" not in fs:
             continue
-        if any(seen.get(f, 0) < 6 for f in fs) or len(chosen) < n // 3:
-            chosen.append(b)
+        if any(seen.get(f, 0) < max(6, n // 20) for f in fs) or len(chosen) < n // 3:
+            chosen.append(i)
             for f in fs:
                 seen[f] = seen.get(f, 0) + 1
         if len(chosen) >= n:
             break
     if len(chosen) < n:
-        rest = [b for b in sorted(behaviours, key=lambda b: -len(b["expect"]["published"])) if b not in chosen]
+        taken = set(chosen)
+        rest = sorted((i for i in range(len(behaviours)) if i not in taken),
+                      key=lambda i: (-len(behaviours[i]["expect"]["published"]), i))
         chosen += rest[: n - len(chosen)]
-    return chosen, seen
+    return [behaviours[i] for i in chosen], seen
 
 
 def analyse(c, name, trace_path, expectations=None):
@@ -91,6 +96,10 @@ def analyse(c, name, trace_path, expectations=None):
         "progress_events": sum(1 for r in recs if r["ev"] == "Progress"),
         "progress_ok": sum(1 for r in recs if r["ev"] == "Progress" and r["signed_again"]),
     })
+    # how the signer keys its stored stake distributions is not part of the contract: a change is reported as drift
+    odd = [(s_, o_["epoch"]) for s_ in final for o_ in final[s_]["stakes"] if not o_["of_previous_epoch"]]
+    if odd:
+        c.drift.append({"stake_distribution_not_of_previous_epoch": odd[:5]})
     drift = 0
     if expectations is not None:
         for sid, exp in expectations.items():
@@ -144,8 +153,8 @@ def run(tier, seed):
          vacuity=["SaveInit", "MarkSigned", "Restart", "Register", "TickNoSignWait", "TickEpochChanged"])
     if th:
         c.mc("signer", "MC_Signer", "MC_Signer_thorough.cfg", workers=14, timeout=3000, heap="24g", env_extra=env)
-    nsim = 600 if not th else 6000
-    g = c.mc("signer", "MC_SignerGen", "MC_SignerGen.cfg", name="SIM+GEN", workers=4, timeout=1500,
+    nsim = 2000 if not th else 12000
+    g = c.mc("signer", "MC_SignerGen", "MC_SignerGen.cfg", name="SIM+GEN", workers=1, timeout=1500,     # (one worker: reproducible from the seed)
              coverage=False, simulate=nsim, depth=130, seed=seed, env_extra=env)
     if g.violated:
         raise vlib.ToolError(f"simulation found a model counterexample to {g.violated} that is not a listed finding")
@@ -153,37 +162,48 @@ def run(tier, seed):
     if len(behaviours) < 300:
         raise vlib.ToolError("GEN produced too few behaviours")
     chosen, feats = select(behaviours, 120 if not th else 1000)
-    sched = os.path.join(c.work, "schedules.ndjson")
-    expectations = {}
-    with open(sched, "w") as f:
-        for i, b in enumerate(chosen):
-            f.write(json.dumps({"id": i, "steps": signersched.convert(b["steps"])}) + "\n")
-            expectations[i] = b["expect"]
     c.cov["stages"]["MC:SIM+GEN"].update({"behaviours": len(behaviours), "behaviours_replayed": len(chosen),
                                           "features_in_replayed": dict(sorted(feats.items()))})
-    for need in ["turn"] + (["lagged"] if unfixed else []) + ["restart@registered", "restart@published", "fault:reg_half", "fault:pub_half",
-                 "fault:closed", "fault:stale"]:
+    for need in ["turn"] + (["lagged"] if unfixed else []) + ["restart@registered", "restart@published", "fault:reg_half",
+                                                                "fault:pub_half", "fault:closed", "fault:stale"]:
         if feats.get(need, 0) == 0:
             raise vlib.ToolError(f"GEN: vacuity -- no replayed behaviour with {need}")
+    # runs: the TLC schedules in chunks (one trace per chunk keeps the validation inputs small), then the seeded driver
+    runs = []
+    per_chunk = 150
+    nchunks = (len(chosen) + per_chunk - 1) // per_chunk
+    for ci in range(nchunks):
+        path = os.path.join(c.work, f"schedules.{ci}.ndjson")
+        exp = {}
+        with open(path, "w") as f:
+            for i in range(ci * per_chunk, min(len(chosen), (ci + 1) * per_chunk)):
+                f.write(json.dumps({"id": i, "steps": signersched.convert(chosen[i]["steps"])}) + "\n")
+                exp[i] = chosen[i]["expect"]
+        runs.append(("tlc_schedules" if nchunks == 1 else f"tlc_schedules.{ci}", "tlc", ["--schedules", path], exp))
+    nseeded = 1 if not th else 8
+    for si in range(nseeded):
+        runs.append(("seeded_driver" if nseeded == 1 else f"seeded_driver.{si}", "seeded",
+                     ["--seed", int(seed) + 7919 * si, "--runs", 50 if not th else 60, "--len", 90], None))
     c.build("vh-signer", ["c20_signer"])
     total_events = 0
     distinct = set()
-    vacuous = []
-    for name, args, exp in (
-            ("tlc_schedules", ["--schedules", sched], expectations),
-            ("seeded_driver", ["--seed", seed, "--runs", 50 if not th else 500, "--len", 90], None)):
+    hits = {"tlc": {}, "seeded": {}}
+    for name, kind, args, exp in runs:
         t = os.path.join(c.work, f"{name}.trace.ndjson")
         s = c.run_harness("c20_signer", ["--out", t, "--work", os.path.join(c.work, "signer_" + name), "--jobs", 12] + args,
                           timeout=3000)
-        c.cov["stages"]["RUN:c20_signer"]["name"] = name
         c.cov["stages"]["RUN:" + name] = c.cov["stages"].pop("RUN:c20_signer")
         n, d = analyse(c, name, t, exp)
         total_events += n
         distinct |= d
-        hits = (s or {}).get("faults_exercised", {})
-        vacuous += [f"RUN {name}: aggregator fault {fault} never exercised" for fault in FAULTS + ["turn"]
-                    if hits.get(fault, 0) == 0]
-        c.validate("signer", "SignerTrace", "SignerTrace.cfg", t, name=name, timeout=3000, heap="8g")
+        for k, v in (s or {}).get("faults_exercised", {}).items():
+            hits[kind][k] = hits[kind].get(k, 0) + v
+        r = c.validate("signer", "SignerTrace", "SignerTrace.cfg", t, name=name, timeout=3000, heap="8g")
+        if th and r["accepted"]:
+            os.remove(t)        # (thorough traces are large; a rejected one is kept as the replay)
+    c.cov["faults_exercised"] = hits
+    vacuous = [f"{kind} runs: aggregator fault {fault} never exercised" for kind in hits for fault in FAULTS + ["turn"]
+               if hits[kind].get(fault, 0) == 0]
     if vacuous and not c.violations:
         # (a signer that never signs exercises no publication fault: the contract's progress clause reports that first)
         raise vlib.ToolError("vacuity -- " + "; ".join(vacuous))
